@@ -334,6 +334,74 @@ fn surplus_strategy(_t: Tier) -> BoxedStrategy<(ARecord, Vec<u8>, Bytes)> {
         .boxed()
 }
 
+/// a record whose embedded name (one of them, if the type has several) takes 256..=330 octets on the wire, written in
+/// full or reached through a pointer to a question name of that size: every reader of names must refuse it
+fn check_in_overlong(input: &(ARecord, u16, u8, bool), case: &mut Case) -> Result<(), Fail> {
+    let (rec, wire_len, which, via_pointer) = input;
+    let code = rec.rdata.code();
+    // labels of 40 octets until the wanted wire length is reached
+    let mut labels: Vec<Bytes> = Vec::new();
+    let mut wire = 1usize;
+    while wire + 41 <= *wire_len as usize {
+        labels.push(Bytes(vec![b'a' + (labels.len() % 26) as u8; 40]));
+        wire += 41;
+    }
+    let rem = *wire_len as usize - wire;
+    if rem >= 2 {
+        labels.push(Bytes(vec![b'z'; rem - 1]));
+    }
+    let long = AName(labels);
+    let mut rec = rec.clone();
+    let mut replaced = false;
+    if let ARData::Typed { fields, .. } = &mut rec.rdata {
+        let slots: Vec<usize> = fields.iter().enumerate().filter(|(_, f)| matches!(f, Val::Name(_) | Val::Gateway(Gw::Name(_)))).map(|(i, _)| i).collect();
+        if !slots.is_empty() {
+            let i = slots[*which as usize % slots.len()];
+            fields[i] = match &fields[i] {
+                Val::Gateway(_) => Val::Gateway(Gw::Name(long.clone())),
+                _ => Val::Name(long.clone()),
+            };
+            replaced = true;
+        }
+    }
+    if !replaced {
+        return Ok(());
+    }
+    let mut p = APacket { id: 1, flags: 0x8400, ..Default::default() };
+    if *via_pointer {
+        // the question name is the over-long name itself (rejected there already by a correct reader; the record
+        // position is what this case is about, so the question uses a shorter, valid prefix plus a first label)
+        let mut q = long.clone();
+        q.0.remove(0);
+        p.questions.push(AQuestion { name: q, qtype: 255, qclass: 1, unicast: false });
+    }
+    p.answers.push(rec.clone());
+    p.answers.push(ARecord { name: AName::from_strs(&["t", "example"]), class: 1, cache_flush: false, ttl: 1, rdata: ARData::Typed { code: 1, fields: vec![Val::U32(0x7f000001)] } });
+    let opts = if *via_pointer { EncOpts::foreign(vec![1, 1, 1, 1, 1, 1, 1, 1]) } else { EncOpts::plain() };
+    let wire_msg = encode_message(&p, &opts);
+    case.class(format!("type:{}", code));
+    case.nontrivial = true;
+    if let Ok(pk) = parse(&wire_msg)? {
+        let o = lib("observe", || crate::bridge::observe_record(&pk.answers[0]))?;
+        return Err(Fail::new(
+            "c06:in-packet-overlong:accepted",
+            format!("a type {} record holding a name of {} wire octets ({}) was accepted as {:?}", code, wire_len, if *via_pointer { "partly through a pointer" } else { "written in full" }, o.rdata),
+        ));
+    }
+    Ok(())
+}
+
+fn overlong_strategy(_t: Tier) -> BoxedStrategy<(ARecord, u16, u8, bool)> {
+    let with_names: Vec<u16> = crate::gen::record_codes().into_iter().filter(|c| type_info(*c).map(|i| i.fields.iter().any(|f| matches!(f.kind, Kind::Name(_) | Kind::Gateway))).unwrap_or(false)).collect();
+    (
+        proptest::sample::select(with_names).prop_flat_map(|c| crate::gen::arecord_with(crate::gen::typed_n(c, crate::gen::friendly_name()))),
+        prop_oneof![3 => 256u16..=258, 1 => 259u16..=330],
+        any::<u8>(),
+        any::<bool>(),
+    )
+        .boxed()
+}
+
 fn check_in_large(input: &(crate::gen::Sharing, Vec<u8>), case: &mut Case) -> Result<(), Fail> {
     let p = input.0.assemble();
     let opts = if input.1.is_empty() { EncOpts::compressed() } else { EncOpts::foreign(input.1.clone()) };
@@ -358,7 +426,7 @@ fn large_strategy(t: Tier) -> BoxedStrategy<(crate::gen::Sharing, Vec<u8>)> {
 pub fn def() -> CheckDef {
     CheckDef {
         id: "C06",
-        rule: "library name decoder (hook Name::verif_parse) vs an independent RFC 1035 4.1.4 decoder with a visited set: (1) bounded-exhaustive: every buffer of length <= 6 (7 thorough) over {00,01,02,03,04,05,3f,40,80,c0,ff,'a'} decoded at every start offset; (2) names of 250..=258 wire bytes from 5 label sizes, direct and through a pointer; (2b) chains of 0..4000 strictly backward pointer hops onto names of 0..127 labels, and every reserved-type octet 0x40..=0xBF with 0..260 bytes behind it; (3) random 'soups' of labels (1..4, 30..40, 61..63 bytes), terminators, pointers to earlier pieces, absolute pointers (into the prefix, forward, out of range) and reserved-type octets, decoded at every piece start; (4) through Packet::parse: every record type reference-encoded with foreign compression (pointers inside all RDATA names) followed by another record; the same for the types with embedded names when RDLENGTH exceeds the content by 1..3 octets (if the library accepts the surplus, the fields behind the names and the next record must be unaffected); and suffix-sharing messages up to 64 KiB whose pointers reach offsets up to 16383, observed field by field. Oracle: library Ok => same labels and same resume offset, labels 1..=63, wire <= 255; reference error (cycle, out of range, reserved type, too long, truncated) => library Err; reference Ok with only backward pointers and <= 32 hops => library Ok. Non-trivial = the reference decode met a pointer, >= 2 labels or an error; evaluations count (buffer, offset) pairs",
+        rule: "library name decoder (hook Name::verif_parse) vs an independent RFC 1035 4.1.4 decoder with a visited set: (1) bounded-exhaustive: every buffer of length <= 6 (7 thorough) over {00,01,02,03,04,05,3f,40,80,c0,ff,'a'} decoded at every start offset; (2) names of 250..=258 wire bytes from 5 label sizes, direct and through a pointer; (2b) chains of 0..4000 strictly backward pointer hops onto names of 0..127 labels, and every reserved-type octet 0x40..=0xBF with 0..260 bytes behind it; (3) random 'soups' of labels (1..4, 30..40, 61..63 bytes), terminators, pointers to earlier pieces, absolute pointers (into the prefix, forward, out of range) and reserved-type octets, decoded at every piece start; (4) through Packet::parse: every record type reference-encoded with foreign compression (pointers inside all RDATA names) followed by another record; the same for the types with embedded names when RDLENGTH exceeds the content by 1..3 octets (if the library accepts the surplus, the fields behind the names and the next record must be unaffected); a name of 256..330 wire octets placed in each RDATA name position of each such type (in full, or continued through a pointer into the question) must be refused; and suffix-sharing messages up to 64 KiB whose pointers reach offsets up to 16383, observed field by field. Oracle: library Ok => same labels and same resume offset, labels 1..=63, wire <= 255; reference error (cycle, out of range, reserved type, too long, truncated) => library Err; reference Ok with only backward pointers and <= 32 hops => library Ok. Non-trivial = the reference decode met a pointer, >= 2 labels or an error; evaluations count (buffer, offset) pairs",
         assumptions: vec!["forward pointers and chains longer than 32 hops may be refused (no claim)"],
         sections: vec![
             Box::new(ReplayOnly { name: "fuzz-bytes", check: check_raw }),
@@ -368,6 +436,7 @@ pub fn def() -> CheckDef {
             Box::new(EnumSection { name: "reserved-types", rule: "every octet 0x40..=0xBF as a label type with 0..260 bytes behind it", enumerate: enum_reserved, check: check_reserved, exhaustive: true }),
             Box::new(PropSection { name: "in-packet", rule: "names in question / owner / RDATA positions of every type", strategy: super::c10::parse_strategy, cases: (100_000, 1_500_000), check: check_in_packet }),
             Box::new(PropSection { name: "in-packet-surplus", rule: "names followed by fixed fields inside RDATA with surplus octets", strategy: surplus_strategy, cases: (60_000, 600_000), check: check_in_surplus }),
+            Box::new(PropSection { name: "in-packet-overlong", rule: "names of 256..330 octets in every RDATA name position", strategy: overlong_strategy, cases: (40_000, 400_000), check: check_in_overlong }),
             Box::new(PropSection { name: "in-packet-large", rule: "pointers to offsets up to 16383 in large messages", strategy: large_strategy, cases: (30_000, 300_000), check: check_in_large }),
             Box::new(PropSection { name: "soups", rule: "random name soups", strategy: soup_strategy, cases: (300_000, 4_000_000), check: check_soup }),
         ],
